@@ -37,6 +37,8 @@ def _leaf(fn):
 
 
 def run(ctx, obs):
+    from ..rules import sweeps
+    sweeps.run(ctx, obs, 'C08')
     prog = ctx.prog
     for fn in FITTERS + ['_loss']:
         fwd_same_name(ctx, obs, F + fn, OPTS)
